@@ -32,7 +32,31 @@ PREFIXES = ["YOCTO", "ZEPTO", "ATTO", "FEMTO", "PICO", "NANO", "MICRO", "MILLI",
 
 # ------------------------------------------------------------------------------------------------ generator
 
+def midpoint_num(rng):
+    """A Prefixed (or Decimal) with a long mantissa, 1e-60 (relative) to one side of the midpoint of two adjacent doubles:
+    anything but one exact conversion rounds it to the wrong neighbour."""
+    import math
+    from decimal import localcontext
+
+    x = rng.uniform(1, 10) * 10.0 ** rng.randint(-12, 6)
+    y = math.nextafter(x, math.inf)
+    mid = (Fraction(x) + Fraction(y)) / 2
+    mag = math.floor(math.log10(x))
+    v = mid + rng.choice([1, -1]) * Fraction(1, 10 ** (60 - mag))
+    with localcontext() as ctx:
+        ctx.prec = 2000
+        dec = Decimal(v.numerator) / Decimal(v.denominator)
+        assert Fraction(dec) == v
+        if rng.random() < 0.7:
+            pre = rng.choice(PREFIXES)
+            exp = h.prefix.Prefix[pre].value
+            return {"form": "prefixed", "py": [str(dec.scaleb(-exp)), pre], "val": str(v)}
+        return {"form": "decimal", "py": str(dec), "val": str(v)}
+
+
 def gen_num(rng, positive=True):
+    if rng.random() < 0.08:
+        return midpoint_num(rng)
     form = rng.choice(["int", "float", "str", "decimal", "prefixed", "prefixed", "prefixed_dec"])
     if form == "int":
         v = rng.randint(1, 2000)
@@ -122,7 +146,7 @@ def gen_attr(rng, pool):
 
 
 def gen_sim(rng, k):
-    tbk = "good" if rng.random() < 0.85 else rng.choice(["bus", "noport", "twoports"])
+    tbk = "good" if rng.random() < 0.82 else rng.choice(["bus", "noport", "twoports", "bundleport", "bundleport"])
     pool = list(NAMES)
     rng.shuffle(pool)
     return {"tb": {"kind": tbk, "name": f"tb{k}"}, "style": rng.choice(["proc", "class", "methods", "add"]),
@@ -134,9 +158,14 @@ def make_cases(rng, n):
     for k in range(n):
         if rng.random() < 0.2:
             sims = [gen_sim(rng, f"{k}_{j}") for j in range(rng.randint(2, 3))]
-            if rng.random() < 0.5:  # share one testbench
+            r = rng.random()
+            if r < 0.4:  # share one testbench
                 for s in sims[1:]:
                     s["tb"] = dict(sims[0]["tb"], shared=True)
+            elif r < 0.65:
+                # two different testbenches under one bare name: `sim.tb(name)` lives in hdl21.sim.data, the designer's own module elsewhere
+                sims[0]["tb"] = {"kind": "good", "name": f"same{k}"}
+                sims[1]["tb"] = {"kind": "user", "name": f"same{k}"}
             cases.append({"sims": sims, "as_list": True})
         else:
             cases.append({"sims": [gen_sim(rng, str(k))], "as_list": rng.random() < 0.1})
@@ -238,6 +267,12 @@ def build_tb(spec, cache):
             t.VSS = h.Port(width=2)
         elif k == "twoports":
             t.VSS, t.other = h.Port(), h.Port()
+        elif k == "user":
+            t.VSS = h.Port()
+        elif k == "bundleport":
+            # one scalar port now — and two more once the bundle-valued port is flattened
+            t.VSS = h.Port()
+            t.d = h.Diff(port=True)
         else:
             t.VSS = h.Signal()
     t.a, t.b = h.Signal(), h.Signal()
@@ -541,8 +576,9 @@ def run_cases(ctx, cases):
         ix = []
         for k, s in enumerate(c["sims"]):
             ports = (im.get("tb_ports") or [None] * len(c["sims"]))[k] if "build_error" not in im else None
-            if ports is None:
-                ports = {"good": [1], "bus": [2], "noport": [], "twoports": [1, 1]}[s["tb"]["kind"]]
+            if ports is None or s["tb"]["kind"] == "bundleport":
+                # (bundleport: whatever state a refusal left the module in — flattened, it has three ports)
+                ports = {"good": [1], "bus": [2], "noport": [], "twoports": [1, 1], "bundleport": [1, 1, 1], "user": [1]}[s["tb"]["kind"]]
             ix.append(len(lines))
             lines.append(model_line(s, ports, (im.get("tb_names") or ["?"] * len(c["sims"]))[k] if "build_error" not in im else "?"))
         idx.append(ix)
